@@ -12,7 +12,7 @@ shutil.copy(f"{src}/demo_test.go", f"{dst}/zz_seed_demo_test.go")
 meta = {
  "property": sid.split("-")[0],
  "needs_to_manifest": needs,
- "produced_by": "independent sub-agent given only the property text and a scratch worktree (rounds 4 and 5: made while restructuring the code with a named idiom; the same agent then wrote the behaviour-preserving twin)",
+ "produced_by": os.environ.get("PRODUCED_BY", "independent sub-agent given only the property text and a scratch worktree (rounds 4 and 5: made while restructuring the code with a named idiom; the same agent then wrote the behaviour-preserving twin)"),
  "confirmed": "tools/eval_seed3.sh: in a scratch worktree the demo passes unpatched; with the patch the build and the unedited suite pass and the demo fails; the property's check run on the patched worktree",
  "detected_by": det,
 }
